@@ -259,3 +259,66 @@ def model_dims(spec):
     for k, v in b.items():
         d[k] = d.get(k, 0) + sign * v
     return {k: v for k, v in d.items() if v != 0}
+
+
+# ------------------------------------------------------------------------------------------------
+# snapshots (plain data compared with ==; proxies are identified by the z3 AST they carry)
+# ------------------------------------------------------------------------------------------------
+def _atom(e):
+    """identity-preserving description of one stored amount"""
+    if isinstance(e, (core.SymReal, core.SymFP, core.SymInt)):
+        return ("sym", e.expr.get_id())
+    if isinstance(e, float):
+        return ("f", repr(e))
+    if isinstance(e, tuple):
+        return ("t",) + tuple(_atom(x) for x in e)
+    try:
+        import numpy
+
+        if isinstance(e, numpy.generic):
+            return ("np", repr(e.item()))
+    except ImportError:
+        pass
+    return ("o", repr(e))
+
+
+def snap_quantity(q):
+    return (q.GetCategory(), q.GetQuantityType(), q.GetUnit(), tuple((c, tuple(ue)) for c, ue in q.GetCategoryToUnitAndExps().items()),
+            q.GetComposingUnits() if isinstance(q.GetComposingUnits(), str) else tuple(tuple(x) for x in q.GetComposingUnits()),
+            q.GetComposingCategories() if isinstance(q.GetComposingCategories(), str) else tuple(q.GetComposingCategories()),
+            tuple(q.GetComposingUnitsJoiningExponents()), q.GetUnknownCaption(), q.IsDerived(), hash(q), repr(q))
+
+
+def snap_cache(db):
+    return {repr(k): (id(q), snap_quantity(q)) for k, q in db.quantities_cache.items()}
+
+
+def snap_value(o):
+    import numpy
+    from barril.basic.fraction import FractionValue
+
+    v = o.GetAbstractValue()
+    if isinstance(v, FractionValue):
+        vs = ("fv", _atom(v.GetNumber()), repr(v.GetFraction().numerator), repr(v.GetFraction().denominator), id(v), id(v.GetFraction()))
+    elif isinstance(v, (list, tuple, numpy.ndarray)):
+        vs = (type(v).__name__, id(v), len(v), tuple(_atom(e) for e in v))
+    else:
+        vs = ("scalar", _atom(v))
+    return (type(o).__name__, id(o.GetQuantity()), snap_quantity(o.GetQuantity()), vs, getattr(o, "_dimension", None))
+
+
+def snap_registry(db):
+    """what the database REPORTS through its public getters (memo tables are not part of it)"""
+    out = {"qts": tuple(db.GetQuantityTypes())}
+    units = {}
+    for qt in db.GetQuantityTypes():
+        units[qt] = tuple((i.unit, i.name, i.default_category, id(i.tobase), id(i.frombase)) for i in db.GetInfos(qt))
+    out["units"] = units
+    cats = {}
+    for c in list(db.IterCategories()):
+        i = db.GetCategoryInfo(c)
+        cats[c] = (i.quantity_type, tuple(i.valid_units) if i.valid_units is not None else None, i.default_unit, _atom(i.default_value),
+                   _atom(i.min_value) if i.min_value is not None else None, _atom(i.max_value) if i.max_value is not None else None,
+                   i.is_min_exclusive, i.is_max_exclusive, i.caption, tuple(db.GetValidUnits(c)), db.GetDefaultUnit(c), db.GetBaseUnit(i.quantity_type))
+    out["cats"] = cats
+    return out
